@@ -263,6 +263,18 @@ def correspondence(prop, ctx, mod):
         ops = corpus_lines(prop) + [l for l in g.stdout.split("\n") if l]
     par = getattr(mod, "IMPL_PARALLEL", NCPU)
     impl = run_lines([VH, prop, "impl"], ops, env=env, parallel=par, timeout=getattr(mod, "IMPL_TIMEOUT", 3600))
+    # answers that may be artefacts of machine load (a deadline hit, an allocation account polluted by a goroutine a previous op
+    # left behind) are asked again, one op per fresh process and with the module's generous settings; the second answer counts
+    if hasattr(mod, "retry_alone"):
+        again = [i for i, (o, l) in enumerate(zip(ops, impl)) if mod.retry_alone(o, l)]
+        if again and len(again) <= 200:
+            env2 = dict(env, **getattr(mod, "RETRY_ENV", {}))
+            def _one(i):
+                r = run_lines([VH, prop, "impl"], [ops[i]], env=env2, parallel=1, timeout=getattr(mod, "IMPL_TIMEOUT", 3600))
+                return r[0] if r else "not-run"
+            with ThreadPoolExecutor(max_workers=2) as ex:
+                for i, r in zip(again, ex.map(_one, again)):
+                    impl[i] = r
     model = run_lines([DRIVER], ops, parallel=NCPU)
     findings, known_hits = [], []
     tags, kinds, seen = Counter(), Counter(), set()
